@@ -165,6 +165,9 @@ func ExecOpts(op M) (res any) {
 	if asStr(op["op"]) == "optsBackends" {
 		return execBackends(asStr(op["kind"]) == "writer")
 	}
+	if asStr(op["op"]) == "optsNil" {
+		return execNilOptions(asStr(op["kind"]) == "writer")
+	}
 	if asStr(op["op"]) != "optsHist" || !optsWellFormed(op) {
 		return "unknown-op"
 	}
@@ -391,7 +394,8 @@ func optsGen(g *G, tier string) []M {
 	if tier == "thorough" {
 		n = 8000
 	}
-	ops := []M{{"op": "optsBackends", "kind": "writer"}, {"op": "optsBackends", "kind": "reader"}}
+	ops := []M{{"op": "optsBackends", "kind": "writer"}, {"op": "optsBackends", "kind": "reader"},
+		{"op": "optsNil", "kind": "writer"}, {"op": "optsNil", "kind": "reader"}}
 	for i := 0; i < n; i++ {
 		isWriter := g.Chance(0.6)
 		steps := []any{}
@@ -524,6 +528,13 @@ func oracleOpts(op M, res any, exec func(M) any) []Finding {
 	var out []Finding
 	if s, ok := res.(string); ok && strings.HasPrefix(s, "panic") {
 		return []Finding{{"C18", "configuration history panicked: " + s}}
+	}
+	if asStr(op["op"]) == "optsNil" {
+		r, _ := res.(M)
+		for _, p := range asList(r["problems"]) {
+			out = append(out, Finding{"C18", asStr(p)})
+		}
+		return out
 	}
 	if asStr(op["op"]) == "optsBackends" {
 		r, _ := res.(M)
@@ -703,6 +714,155 @@ func execBackends(isWriter bool) any {
 	return M{"before": before, "after": after}
 }
 
+// recBackend records the options every store / retrieve call hands the backend
+type recBackend struct{ seen []string }
+
+func (b *recBackend) Store(_ *sbom.Document, o *storage.StoreOptions) error {
+	if o == nil {
+		b.seen = append(b.seen, "nil")
+	} else {
+		b.seen = append(b.seen, fmt.Sprintf("%v/%v", orEmpty(o.BackendOptions), o.NoClobber))
+	}
+	return nil
+}
+
+func (b *recBackend) Retrieve(id string, o *storage.RetrieveOptions) (*sbom.Document, error) {
+	if o == nil {
+		b.seen = append(b.seen, "nil")
+	} else {
+		b.seen = append(b.seen, fmt.Sprint(orEmpty(o.BackendOptions)))
+	}
+	d := sbom.NewDocument()
+	d.Metadata.Id = id
+	return d, nil
+}
+
+func (b *recBackend) last() string {
+	if len(b.seen) == 0 {
+		return "<no call>"
+	}
+	return b.seen[len(b.seen)-1]
+}
+
+// execNilOptions: constructors handed nil option values, store / retrieve calls, then one instance
+// configured through its own option pointers: every other instance, older or newer, keeps the
+// configuration its constructor gave it, and calls change nobody's configuration
+func execNilOptions(isWriter bool) any {
+	problems := []any{}
+	bad := func(format string, a ...any) { problems = append(problems, fmt.Sprintf(format, a...)) }
+	if isWriter {
+		mk := func(b *recBackend, nils bool) *writer.Writer {
+			if nils {
+				return writer.New(writer.WithStoreRetriever(b), writer.WithRenderOptions(nil), writer.WithSerializeOptions(nil), writer.WithStoreOptions(nil))
+			}
+			return writer.New(writer.WithStoreRetriever(b))
+		}
+		backs := []*recBackend{{}, {}, {}, {}}
+		ws := []*writer.Writer{mk(backs[0], true), mk(backs[1], true), mk(backs[2], false)}
+		want := js(writerCfg(writer.New()))
+		for i, w := range ws {
+			if got := js(writerCfg(w)); got != want {
+				bad("writer %d, constructed with nil option values, has configuration %s, a writer constructed without options has %s", i, got, want)
+			}
+		}
+		for i, w := range ws {
+			before := js(writerCfg(w))
+			if err := w.Store(tinyDoc); err != nil {
+				bad("Store through a recording backend fails: %v", err)
+			}
+			callOpts := &writer.Options{}
+			_ = w.StoreWithOptions(tinyDoc, callOpts)
+			if callOpts.StoreOptions != nil || callOpts.RenderOptions != nil || callOpts.SerializeOptions != nil || callOpts.Format != "" {
+				bad("StoreWithOptions wrote into the options the caller passed: %+v", *callOpts)
+			}
+			if got := js(writerCfg(w)); got != before {
+				bad("store calls changed the configuration of writer %d from %s to %s", i, before, got)
+			}
+		}
+		// configure the first through its own pointers
+		o := ws[0].Options
+		var undo []func()
+		if o.RenderOptions != nil {
+			old := o.RenderOptions.Indent
+			o.RenderOptions.Indent = 9
+			undo = append(undo, func() { o.RenderOptions.Indent = old })
+		}
+		if o.StoreOptions != nil {
+			ob, oc := o.StoreOptions.BackendOptions, o.StoreOptions.NoClobber
+			o.StoreOptions.BackendOptions, o.StoreOptions.NoClobber = "bucket-1", !oc
+			undo = append(undo, func() { o.StoreOptions.BackendOptions, o.StoreOptions.NoClobber = ob, oc })
+		}
+		ws = append(ws, mk(backs[3], false))
+		for i := 1; i < len(ws); i++ {
+			if got := js(writerCfg(ws[i])); got != want {
+				bad("configuring writer 0 through its own option values changed writer %d (constructed %s) to %s", i, map[bool]string{true: "before", false: "afterwards"}[i < 3], got)
+			}
+			_ = ws[i].Store(tinyDoc)
+			if got := backs[i].last(); strings.Contains(got, "bucket-1") {
+				bad("the backend of writer %d was handed the store options configured on writer 0 (%s)", i, got)
+			}
+		}
+		for _, u := range undo {
+			u()
+		}
+		return M{"problems": problems}
+	}
+	mk := func(b *recBackend, nils bool) *reader.Reader {
+		if nils {
+			return reader.New(reader.WithStoreRetriever(b), reader.WithRetrieveOptions(nil), reader.WithUnserializeOptions(nil))
+		}
+		return reader.New(reader.WithStoreRetriever(b))
+	}
+	backs := []*recBackend{{}, {}, {}, {}}
+	rs := []*reader.Reader{mk(backs[0], true), mk(backs[1], false), mk(backs[2], true)}
+	want := js(readerCfg(reader.New()))
+	for i, r := range rs {
+		if got := js(readerCfg(r)); got != want {
+			bad("reader %d, constructed with nil option values, has configuration %s, a reader constructed without options has %s", i, got, want)
+		}
+	}
+	for i, r := range rs {
+		before := js(readerCfg(r))
+		if _, err := r.Retrieve("doc"); err != nil {
+			bad("Retrieve through a recording backend fails: %v", err)
+		}
+		callOpts := &reader.Options{}
+		_, _ = r.RetrieveWithOptions("doc", callOpts)
+		if callOpts.RetrieveOptions != nil || callOpts.UnserializeOptions != nil || callOpts.Format != "" {
+			bad("RetrieveWithOptions wrote into the options the caller passed: %+v", *callOpts)
+		}
+		if got := js(readerCfg(r)); got != before {
+			bad("retrieve calls changed the configuration of reader %d from %s to %s", i, before, got)
+		}
+	}
+	o := rs[0].Options
+	var undo func()
+	if o.RetrieveOptions == nil {
+		o.RetrieveOptions = &storage.RetrieveOptions{BackendOptions: "bucket-1"}
+	} else {
+		old, ro := o.RetrieveOptions.BackendOptions, o.RetrieveOptions
+		ro.BackendOptions = "bucket-1"
+		undo = func() { ro.BackendOptions = old }
+	}
+	if _, err := rs[0].Retrieve("doc"); err != nil || backs[0].last() != "bucket-1" {
+		bad("the backend of reader 0 was handed %q, its reader is configured with bucket-1 (error %v)", backs[0].last(), err)
+	}
+	rs = append(rs, mk(backs[3], false))
+	for i := 1; i < len(rs); i++ {
+		if got := js(readerCfg(rs[i])); got != want {
+			bad("configuring reader 0 through its own option values changed reader %d to %s", i, got)
+		}
+		_, _ = rs[i].Retrieve("doc")
+		if got := backs[i].last(); strings.Contains(got, "bucket-1") {
+			bad("the backend of reader %d was handed the retrieve options configured on reader 0 (%s)", i, got)
+		}
+	}
+	if undo != nil {
+		undo()
+	}
+	return M{"problems": problems}
+}
+
 var OptsStream = &Stream{
 	Name:       "opts",
 	Gen:        optsGen,
@@ -712,5 +872,5 @@ var OptsStream = &Stream{
 	Nontrivial: func(op M) bool { return true },
 	OpProps:    func(op M) []string { return []string{"C18"} },
 	Reps:       1,
-	NoModel:    func(op M) bool { return asStr(op["op"]) == "optsBackends" },
+	NoModel:    func(op M) bool { return asStr(op["op"]) == "optsBackends" || asStr(op["op"]) == "optsNil" },
 }
